@@ -90,6 +90,7 @@ func C06(c *core.Ctx) {
 	}
 	// the completeness score and base counts attached to each target are those of its whole sequence, however the file is wrapped
 	checkReaders(c, tabs, "R8/", true, "ReadEncodeScoreAlignment")
+	c07Identities(c, tabs) // what is ranked is the exact value of the measure
 	recT := namedType(c, "pkg/fastaio", "EncodedFastaRecord")
 	if recT == nil {
 		c.Und("R0/types", token.NoPos, "UNRESOLVED type fastaio.EncodedFastaRecord")
